@@ -36,6 +36,9 @@ PARTIALS = {
     "p": "[{{ p }}|{{ v }}]",
     "bad": "{% if %}x{% endif %}{{ v | nosuch }}",
     "brk": "{% break %}after",
+    # partials that never stop calling themselves: what ends them is an error like any other in a tolerant environment
+    "selfr": "r{% render 'selfr' %}", "selfi": "i{% include 'selfi' %}", "two": "t{% render 'two' %}{% render 'two' %}", "twoi": "u{% include 'twoi' %}{% include 'twoi' %}|",
+    "pingr": "p{% render 'pongr' %}", "pongr": "q{% render 'pingr' %}{% include 'p' %}",
 }
 
 HOOK = {"n": 0}
@@ -344,7 +347,23 @@ HAND = [
 ]
 
 
+# resource limits in a tolerant environment: whichever statement, block or partial crosses the limit, and wherever in the template it stands,
+# the error is suppressed (reported in warn mode) like any other
+LIMITED = [
+    ({"output_stream_limit": 5}, ["hello, world", "{{ 'abcdefgh' }}tail", "ab{% if true %}cdefgh{% endif %}xyz", "abc{% include 'p' %}def", "{% for i in (1..4) %}ab{% endfor %}z", "ab{% capture c %}cdefgh{% endcapture %}{{ c }}",
+                                   "abcd\nefgh{{ a }}", "{% render 'p' %}abcdefgh", "é日本語😀", "{% raw %}abcdefgh{% endraw %}"]),
+    ({"loop_iteration_limit": 3}, ["a{% for i in (1..5) %}{{ i }}{% endfor %}z", "{% for i in xs %}{% for j in xs %}x{% endfor %}{% endfor %}z", "{% tablerow i in (1..9) %}{{ i }}{% endtablerow %}z"]),
+    ({"local_namespace_limit": 60}, ["a{% assign v = 'xxxxxxxxxxxxxxxxxxxxxxxxxxxxxxxxxxxxxxxxxxxxxxxxxxxxxxxxxxxxxxxxxxxxxxxxxxxxxxxxxxxxxxxx' %}[{{ v | size }}]z", "{% capture v %}{% for i in (1..50) %}xyz{% endfor %}{% endcapture %}[{{ v | size }}]"]),
+    ({"context_depth_limit": 6}, ["a{% render 'selfr' %}z", "a{% include 'selfi' %}z", "a{% render 'two' %}z", "a{% include 'twoi' %}z", "a{% render 'pingr' %}z", "{% for i in (1..2) %}{% render 'two' %}{% endfor %}z",
+                                  "{% if true %}{% if true %}{% if true %}{% if true %}{% if true %}{% if true %}{% if true %}{% if true %}x{% endif %}{% endif %}{% endif %}{% endif %}{% endif %}{% endif %}{% endif %}{% endif %}z"]),
+]
+
+
 def cases(ctx: core.Ctx):
+    for limits, sources in LIMITED:
+        for s in sources:
+            for is_async in (False, True):
+                yield {"source": s, "data": V.enc({"a": 1, "xs": [1, 2, 3]}), "env": {"extra": True, "limits": limits}, "async": is_async}
     for s in HAND + INHERIT:
         yield {"source": s, "data": V.enc({"a": 1, "xs": [1, 2, 3]}), "env": {"extra": True}}
     r0 = ctx.rng("deep")
